@@ -5,7 +5,7 @@ from harness import worlds
 
 PROP = "C03"
 LEAN_MODULE = "Ztr.Props.C03"
-THEOREMS = []
+THEOREMS = ['Ztr.Runner.C03_layers_once', 'Ztr.Runner.C03_child_one_layer']
 RULE = ("worlds with several modules, nested suites, layer declarations on leaves or enclosing suites; option vectors "
         "over -t patterns, --layer patterns, -u/-f, --repeat, --shuffle-seed, -j N and layers that cannot be torn "
         "down (later ones resumed in children); every run is preceded by a --list-tests run with the same options. "
